@@ -114,6 +114,7 @@ func implHistory(hosts, maps, ops string) string {
 func suiteRunner(o *Out, thorough bool, seed int64) {
 	maps := "1=" + wmap("x", "Ii:1", "$a", "Ii:10") + "~2=" + wmap("x", "Ii:2", "y", ws("two")) + "~3=O0"
 	formulas := []string{"x", "$a", "$a = x", "$a = ($a ?? 0) + 1", "$b = 'loc', $b", "[x, y, $a, $b]", "this.x", "k", "$a = k"}
+	late := []string{"$a = 1, nofn()", "$a = 2, left('x', -1)", "$a = 3, x!.y.z", "len", "this.len", "$a = len, $a", "true", "this.true", "$c = [x], $c", "$a"}
 	var opsAlpha []string
 	for _, id := range []string{"1", "2", "3"} {
 		opsAlpha = append(opsAlpha, "T"+id)
@@ -160,6 +161,23 @@ func suiteRunner(o *Out, thorough bool, seed int64) {
 			ops = append(ops, opsAlpha[r.Intn(len(opsAlpha))])
 		}
 		emit(ops)
+	}
+	// a formula that fails after it has assigned; keys named like builtins and keywords
+	{
+		lateOps := []string{"T1", "T2", "Tn", "V" + hx([]byte("len")) + "=Ii:5", "V" + hx([]byte("true")) + "=Ii:0", "W1:" + hx([]byte("x")) + "=Ii:50", "G" + hx([]byte("$a"))}
+		for _, f := range late {
+			lateOps = append(lateOps, "R"+hx([]byte(f)), "Q"+hx([]byte(f)))
+		}
+		enumSeq(len(lateOps), 3, func(idx []int) {
+			if len(idx) < 2 {
+				return
+			}
+			var ops []string
+			for _, i := range idx {
+				ops = append(ops, lateOps[i])
+			}
+			emit(append(ops, "R"+hx([]byte("[$a, $c, x]"))))
+		})
 	}
 	// wide numbers (20 to 34 digits, fractions) stored as locals and caller values, passed to builtins and operators,
 	// returned through the public entry point, and read again later: a stored number may never change
@@ -313,9 +331,21 @@ func suiteStrFun(o *Out, thorough bool, seed int64) {
 			ev("includes(" + l + ", " + it + ")")
 		}
 	}
+	// arrays that come from the data and hold Go values (never normalised inside a container): join and includes
+	// work on what the elements print as
+	{
+		rows := "A3 " + wmap("k", "Ii:65", "j", ws("x")) + " " + wmap("k", "Ii64:66") + " " + wmap("j", "N")
+		for _, ids := range []string{"A2 Ii:65 Ii:66", "Z3 Ii:1 Ii:2 Ii:3", "A2 Ii64:65 Ii32:66", "A2 G312e35 G32", "A3 Ii:65 " + ws("65") + " D+:65:0", "Z2 " + ws("a") + " " + ws("b"), "A2 T F", "A2 Iu8:65 Ii8:66", "A0"} {
+			data := wmap("ids", ids, "rows", rows)
+			for _, t := range []string{"join(ids, ',')", "includes(ids, '65')", "includes(ids, 'A')", "includes(ids, 65)", "join(ids, '') + '!'", "join(mapToArr(rows, 'k'), '-')", "includes(mapToArr(rows, 'k'), '66')"} {
+				emitEval(o, t, 0, "-", data, true)
+			}
+		}
+	}
 	// regexp agrees with RE2 (Go's regexp); invalid patterns are errors (C03)
-	pats := []string{"a", "^a", "a$", "a*", "a+b", "(a|b)c", "[a-c]+", ".", "^$", "a?b", "(ab)*", "[^a]", "a{2}", "\\d+", "^(a|b)*$", "(", "[", "a**", "\\"}
-	subs := []string{"", "a", "b", "ab", "abc", "aab", "cab", "ca", "12", "aa"}
+	pats := []string{"a", "^a", "a$", "a*", "a+b", "(a|b)c", "[a-c]+", ".", "^$", "a?b", "(ab)*", "[^a]", "a{2}", "\\d+", "^(a|b)*$", "(", "[", "a**", "\\",
+		"^b", "(?m)^b", "a.b", "(?s)a.b", "(?i)A", "^.$", "\\pL", "", "a*?b", "b$", "(?m)a$", "\\s", "[[:alpha:]]+", "\\bb"}
+	subs := []string{"", "a", "b", "ab", "abc", "aab", "cab", "ca", "12", "aa", "a\nb", "a\r\nb", "A", "é", "\xff", "a b"}
 	for _, p := range pats {
 		re, err := regexp.Compile(p)
 		for _, s := range subs {
@@ -529,7 +559,8 @@ func suiteNumFun(o *Out, thorough bool, seed int64) {
 	line := func(t string) string { return fmt.Sprintf("EV\t%s\t0\t-\t-", hx([]byte(t))) }
 	args := []string{"0", "-0", "1", "-1", "2.5", "-2.5", "3.5", "-3.5", "0.5", "-0.5", "1.5", "2.4999999", "2.5000001", "2.9999999", "-2.9999999",
 		"0.1", "-0.1", "123456789012345", "-123456789012345", "1e15", "1.5e15", "12345.6789e-3", "1e-15", "-1e-15", "999999999999999e-15", "0.49999999999999",
-		"7", "100", "1e3", "99.5", "-99.5", "100.5", "0.000", "5e-1"}
+		"7", "100", "1e3", "99.5", "-99.5", "100.5", "0.000", "5e-1",
+		"1e19", "-1e25", "999999999999999e15", "9223372036854775808", "9223372036854775807", "-9223372036854775809", "123456789012345678901.9", "-123456789012345678901.9", "1e300", "1e-300"}
 	for _, a := range args {
 		for _, f := range []string{"abs", "ceil", "floor", "round", "roundBank", "toInt", "toFloat", "toString", "finite", "sqrt", "exp", "ln", "log"} {
 			ev(f + "(" + a + ")")
@@ -771,6 +802,17 @@ func suiteDateFun(o *Out, thorough bool, seed int64) {
 			}
 			u := "useTimezone(" + dt + ", '" + z + "')"
 			ev("[millSecond("+u+") == millSecond("+dt+"), hour("+u+"), day("+u+"), year("+u+")]", off, "-")
+		}
+	}
+	// the civil fields of a time are those of ITS zone, whatever the local zone is (quarter-hour offsets, a date line
+	// away from the local zone)
+	for _, off := range []int{0, 19800, -34200} {
+		for _, toff := range []int{20700, -36000, 45900, 0, -1800, 50400} {
+			for _, ns := range []string{"1719837296789000000", "1719791400000000000", "-1000000000", "253402300799000000000"} {
+				data := wmap("k", fmt.Sprintf("M%s:%d", ns, toff))
+				ev("[year(k), month(k), day(k), hour(k), minute(k), second(k), weekDay(k), millSecond(k)]", off, data)
+				ev("[minute(useTimezone(k, 'Etc/GMT-8')), weekDay(useTimezone(k, 'Etc/GMT-14')), day(addDate(k, 0, 0, 1)), hour(addDate(k, 0, 1, 0))]", off, data)
+			}
 		}
 	}
 	// times handed in by the host whose location merely carries the name of a zone (time.FixedZone, time.Parse of an
@@ -1032,7 +1074,9 @@ var purityPool = []string{"(1 + 2) * 3", "a.b + c", "$x = a.b, $x * 2", "len(s) 
 	"join(['a','b'], '-')", "left(s, 2) + right(s, 1)", "date(2024, 1, 31)", "year(addDate(date(2024,1,31), 0, 1, 0))", "typeof a", "a.b == 1 && !c",
 	"1 / 3", "0.1 + 0.2", "'q' < s", "round(2.5) + roundBank(2.5)", "this.c", "f(1, 's')", "s.k", "toString(1.50)", "1 +", "a b", "'open", "[1,", "~5 & 3",
 	"regexp(s, '^h')", "replace(s, 'l', 'L')", "mid(s, 1, 3)", "abs(-c)", "ceil(1.2) + floor(-1.2)", "toInt('12') + toFloat('1.5')", "includes(['a'], 'a')",
-	"lpad('7', '0', 3)", "c ? 1 : 2", "2.5 * 2", "7.5 * 0.5", "roundBank(7.5) + roundBank(0.5)", "round(2.5)", "-c", "abs(c) + c", "$n = -c, c", "(a).b", "f(a...)", "null == x", "$y = 1, $y = $y + 1, $y", "weekDay(date(2000, 1, 1))"}
+	"lpad('7', '0', 3)", "c ? 1 : 2", "2.5 * 2", "7.5 * 0.5", "roundBank(7.5) + roundBank(0.5)", "round(2.5)", "-c", "abs(c) + c", "$n = -c, c", "(a).b", "f(a...)", "null == x", "$y = 1, $y = $y + 1, $y", "weekDay(date(2000, 1, 1))",
+	"sqrt(c + 2) * exp(1)", "ln(c + 1) + log(100)", "min(c, 1, -1)", "roundCash(c + 0.5, 2)", "[hour(date(2024, 1, 2)), minute(date(2024, 1, 2)), millSecond(date(2024, 1, 2))]", "timeFormat(date(2024, 1, 2), '2006-01-02')",
+	"join(mapToArr([a], 'b'), ',')", "trim('  x ') + rpad(s, '.', 7)", "toInt(7.9) % 4", "0x1F + !!c", "toFloat('2.5') + toInt('9')", "finite(1/0) + abs(-2)", "upper('ß') + lower('İ')"}
 
 var addrRe = regexp.MustCompile(`0x[0-9a-f]+`)
 
